@@ -192,12 +192,14 @@ Fixpoint lookup {R : Type} (rows : list (ty * ty * R)) (s t : ty) : option R :=
    targets of convert); never reached on valid cases *)
 Inductive res := Res (t : ty) (v : val) | Empty | Unmodelled.
 
-Definition convert (cfg : config) (src tgt : ty) (v : val) : res :=
-  if ty_eqb src tgt then Res tgt v                       (* return self.clone() *)
-  else match lookup (c_convert cfg) src tgt with
+(* [same], [row], [opt]: `self.type_id() == target_type`, the arm found for the pair, the target's
+   primitive type (parameters, so that a run over many payloads looks them up once) *)
+Definition convert_r (same : bool) (row : option crule) (opt : option prim) (tgt : ty) (v : val) : res :=
+  if same then Res tgt v                                 (* return self.clone() *)
+  else match row with
        | None => Empty                                   (* _ => Variant::Empty *)
        | Some r =>
-         match prim_of tgt with
+         match opt with
          | None => Unmodelled
          | Some pt =>
            match r, v, pt with
@@ -208,6 +210,8 @@ Definition convert (cfg : config) (src tgt : ty) (v : val) : res :=
            end
          end
        end.
+Definition convert (cfg : config) (src tgt : ty) (v : val) : res :=
+  convert_r (ty_eqb src tgt) (lookup (c_convert cfg) src tgt) (prim_of tgt) tgt v.
 
 Definition eval_arg (a : arg) (v : val) : option val :=
   match a, v with
@@ -251,11 +255,11 @@ Definition bool_macro (x : val) : res :=
   | _ => Unmodelled
   end.
 
-Definition explicit (cfg : config) (src tgt : ty) (v : val) : res :=
-  match lookup (c_cast cfg) src tgt with
+Definition explicit_r (cfg : config) (row : option xrule) (ops opt : option prim) (tgt : ty) (v : val) : res :=
+  match row with
   | None => Empty
   | Some r =>
-    match prim_of src, prim_of tgt with
+    match ops, opt with
     | Some pf, Some pt =>
       match r with
       | XInt a => match eval_arg a v with Some x => int_macro cfg x pf pt tgt | None => Unmodelled end
@@ -270,6 +274,8 @@ Definition explicit (cfg : config) (src tgt : ty) (v : val) : res :=
     | _, _ => Unmodelled
     end
   end.
+Definition explicit (cfg : config) (src tgt : ty) (v : val) : res :=
+  explicit_r cfg (lookup (c_cast cfg) src tgt) (prim_of src) (prim_of tgt) tgt v.
 
 Definition cast (cfg : config) (src tgt : ty) (v : val) : res :=
   match convert cfg src tgt v with
@@ -308,8 +314,9 @@ Inductive op := Convert | Cast.
    payloads c_lo, c_lo + 1, .. followed by the listed ones *)
 Record case := mk_case { c_op : op; c_src : ty; c_tgt : ty; c_lo : Z; c_n : Z; c_extra : list Z }.
 
-Definition payloads (c : case) : list Z :=
-  map (fun i => c_lo c + Z.of_nat i) (seq 0 (Z.to_nat (c_n c))) ++ c_extra c.
+Fixpoint zrange (lo : Z) (n : nat) : list Z :=
+  match n with O => [] | S k => lo :: zrange (lo + 1) k end.
+Definition payloads (c : case) : list Z := zrange (c_lo c) (Z.to_nat (c_n c)) ++ c_extra c.
 
 Definition apply (cfg : config) (o : op) (s t : ty) (v : val) : res :=
   match o with Convert => convert cfg s t v | Cast => cast cfg s t v end.
@@ -352,8 +359,31 @@ Fixpoint rle (l : list (Z * Z)) : list (nat * (Z * Z)) :=
 Definition flatten3 (l : list (nat * (Z * Z))) : list Z :=
   flat_map (fun e => [Z.of_nat (fst e); fst (snd e); snd (snd e)]) l.
 
+(* the same function with the table look-ups done once per case instead of once per payload
+   (equal to enc1: Proofs, enc1_fast_eq) *)
+Definition apply_fast (cfg : config) (o : op) (s t : ty) : val -> res :=
+  let same := ty_eqb s t in
+  let row := lookup (c_convert cfg) s t in
+  let xrow := lookup (c_cast cfg) s t in
+  let ps := prim_of s in
+  let pt := prim_of t in
+  match o with
+  | Convert => fun v => convert_r same row pt t v
+  | Cast => fun v => match convert_r same row pt t v with
+                     | Empty => explicit_r cfg xrow ps pt t v
+                     | r => r
+                     end
+  end.
+Definition enc1_fast (cfg : config) (o : op) (s t : ty) : Z -> Z * Z :=
+  let f := apply_fast cfg o s t in
+  fun p => let r := pair_of (match decode s p with
+                             | Some v => out_of_res (f v)
+                             | None => [-3; 0]
+                             end) in
+           (fst r, delta (fst r) p (snd r)).
+
 Definition run_with (cfg : config) (c : case) : list Z :=
-  flatten3 (rle (map (enc1 cfg (c_op c) (c_src c) (c_tgt c)) (payloads c))).
+  flatten3 (rle (map (enc1_fast cfg (c_op c) (c_src c) (c_tgt c)) (payloads c))).
 Definition run (c : case) : list Z := run_with gen_cfg c.
 
 (* ---- the property as a decidable predicate on an output ------------------------------------------
